@@ -531,9 +531,20 @@ impl Prop for C17 {
                     1 => (65000u32..65010, any::<bool>()).prop_map(|(n, v6)| format!("AS{n}/{}", if v6 { "6" } else { "g" })),
                     2 => any::<u16>().prop_map(|i| FLTR_NAMES[pick_idx(i, FLTR_NAMES.len())].to_string()),
                 ];
+                // mostly short sequences; sometimes a long one that keeps referring to the
+                // filter-sets (known or not), so that whatever an evaluator accumulates over its
+                // life time (counters, caches, budgets) gets a chance to matter
+                let f2 = if f.is_empty() { vec!["FLTR-NOSUCH".to_string()] } else { f.clone() };
+                let fs_only = any::<u16>()
+                    .prop_map(move |i| Expr::FilterSet(f2[pick_idx(i, f2.len())].clone()));
+                let general = expr_strategy(a, r, f);
+                let exprs = prop_oneof![
+                    6 => prop::collection::vec(general.clone(), 2..8),
+                    1 => prop::collection::vec(prop_oneof![1 => general, 2 => fs_only.boxed()], 20..45),
+                ];
                 (
                     Just(spec),
-                    prop::collection::vec(expr_strategy(a, r, f), 2..8),
+                    exprs,
                     // errors injected for one query of one member of the sequence
                     prop::collection::vec(
                         (
@@ -568,6 +579,9 @@ impl Prop for C17 {
             }
         };
         let mut prev_interesting = false;
+        if case.exprs.len() >= 20 {
+            obs.class("long-sequence(20..44 evaluations on one evaluator)");
+        }
         for (i, expr) in case.exprs.iter().enumerate() {
             let text = expr.text();
             // the errors injected for this member apply to its evaluation on the shared
